@@ -334,6 +334,66 @@ def _restart_work(acc, case):
         acc.nontrivial(h64(str(case)))
 
 
+# ------------------------------------------------------------------ (b2) two consumer MDIBs in one process
+def run_two_mdibs_case(case):
+    """case = (event committed while A's GetMdib answer is on its way, what the other MDIB does meanwhile).
+    Consumer 1 loads its MDIB A; its GetMdib is answered at version n; before the answer arrives the provider commits n+1
+    (the report is buffered by A, applied by the already running MDIB B of consumer 2) and B does something of its own
+    (reload_all / nothing). A must end as an exact mirror: what B does is none of A's business."""
+    event, b_action = case
+    w = world.World()
+    p = w.mk_provider()
+    c1 = w.mk_consumer(p, ip='10.0.0.2')
+    c2 = w.mk_consumer(p, ip='10.0.0.3')
+    b = w.mk_consumer_mdib(c2)
+    from sdc11073.mdib.consumermdib import ConsumerMdib
+    a = ConsumerMdib(c1)
+    state = {'armed': True}
+
+    def intercept(client, path, data, msg):  # noqa: ARG001
+        if not state['armed'] or client.owner is not c1.verif_owner or b'GetMdib' not in data or b'GetMdibResponse' in data:
+            return None
+        state['armed'] = False
+        server = w.wire.servers[client.netloc]
+        status, _reason, body = server.handle_post(path, data, client._headers(), client.sock_name)
+        A.apply(p, event)                      # committed after the answer was built
+        if b_action == 'reload':
+            b.reload_all()
+        return ('respond', status, body)
+    w.wire.intercept = intercept
+    try:
+        a.init_mdib()
+    except Exception as ex:  # noqa: BLE001
+        return ('load-raised', repr(ex)[:200])
+    finally:
+        w.wire.intercept = None
+    ps = canon.snapshot(p.mdib, with_lookup=False)
+    for who, m in (('A', a), ('B', b)):
+        d = canon.diff(ps, canon.snapshot(m, with_lookup=False))
+        if d:
+            return (f'mdib-{who}-not-mirrored-after-load', d[:2])
+    A.apply(p, 'metric(N1,2)')
+    d = canon.diff(canon.snapshot(p.mdib, with_lookup=False), canon.snapshot(a, with_lookup=False))
+    if d:
+        return ('mdib-A-not-mirrored-after-next-report', d[:2])
+    w.close()
+    return None
+
+
+def _two_mdibs_work(acc, case):
+    acc.trace()
+    acc.evals()
+    acc.transition(4)
+    acc.state(h64(('two-mdibs', str(case))))
+    res = run_two_mdibs_case(case)
+    acc.outcome(f'two-mdibs:{case[1]}:{"ok" if res is None else res[0]}')
+    if res is not None:
+        acc.violation(f'two-mdibs/{res[0]}/{case[0]}/{case[1]}', {'case': list(case), 'detail': res[1]},
+                      case={'kind': 'two-mdibs', 'case': list(case)})
+    else:
+        acc.nontrivial(h64(('two-mdibs', str(case))))
+
+
 # ------------------------------------------------------------------ (c) load / reload race (engine S)
 class SchedQueue:
     """FIFO whose get() blocks the (scheduled) caller while it is empty; put() is a scheduling point."""
@@ -556,6 +616,8 @@ def run(ctx):
                 for a in (('metric(N1,1)',), ('patient-new(A)',), ('create-metric',)):
                     cases.append(((), f'instance:{x}>{y}', a, ('metric(N1,2)',)))
     ctx.pmap(_restart_work, ctx.rotate(cases), chunksize=2)
+    two = [(e, act) for e in ('metric(N1,1)', 'patient-new(A)', 'create-metric') for act in ('reload', 'nothing')]
+    ctx.pmap(_two_mdibs_work, two, chunksize=1)
     bound = 1 if ctx.quick else 3
     if ctx.quick:
         rjobs = [(s, 1, 3000, False) for s in RACE_SCENARIOS[:8]] + [(RACE_SCENARIOS[1], 2, 3000, False)]
@@ -581,6 +643,11 @@ def replay(ctx, case):
         res = check_delivery_sequence(cap, case['sequence'])
         if res:
             ctx.violation(f'delivery/{res[0]}', res[1])
+        return {'result': None if res is None else [res[0], str(res[1])[:300]]}
+    if case['kind'] == 'two-mdibs':
+        res = run_two_mdibs_case(tuple(case['case']))
+        if res:
+            ctx.violation(f'two-mdibs/{res[0]}', res[1])
         return {'result': None if res is None else [res[0], str(res[1])[:300]]}
     if case['kind'] == 'restart':
         c = case['case']
